@@ -41,6 +41,14 @@ def _make(i: int, has_prepare: bool, has_start: bool) -> type:
             await CURRENT.on_phase(self, "start")
 
         ns["start"] = start
+        if i % 6 == 0:
+            # these slots have a plain (non-async) start() that does its leading publications
+            # at once and returns the awaitable for the rest (a factory-style start method)
+            def start_eager(self: Any) -> Any:
+                k = CURRENT.eager_start(self)
+                return CURRENT.on_phase(self, "start", k)
+
+            ns["start"] = start_eager
     if i % 2 == 1:
         # odd slots inherit __init__/prepare()/start() from an intermediate base class
         base = type("Base" + name, (Component,), dict(ns, __qualname__="Base" + name))
